@@ -6,21 +6,36 @@
 (*   Truncate(t)    Client.TruncateShardGroups(t)                                    *)
 (*   Alter(dd)      Client.UpdateRetentionPolicy(ShardGroupDuration = dd)            *)
 (*   Delete(id)     Client.DeleteShardGroup(id)                                      *)
+(*   Prune          two weeks pass, Client.PruneShardGroups()                        *)
 (*   Tick(n)        the clock value handed to the next Precreate                     *)
 (* Every step carries the model's group list after the step (slice order), whether   *)
 (* a group was created, and the ranges serving the probe instants.                   *)
 (*  Sim = TRUE: random walk, the step kind is drawn from a weighted bag first.       *)
 (*  Sim = FALSE: BFS with hist in the state: all sequences of length GenLen.         *)
+(*  Script # "none": the behaviour starts with a fixed step list (leads into a       *)
+(*  corner of the state space), generation continues after it.                       *)
 EXTENDS Precreate, Json
 
-CONSTANTS GenLen, Sim, Probes
-VARIABLE hist
-gvars == <<vars, hist>>
+CONSTANTS GenLen, Sim, Probes, Script
+VARIABLES hist, obs
+gvars == <<vars, hist, obs>>
 
-Dyn(S) == {x \in S : Len(hist) >= 0}     \* state-dependent (TLC caches constant-level RandomElement)
+S(a, x) == [a |-> a, x |-> x]
+ScriptSeq ==
+  CASE Script = "none" -> <<>>
+    \* the newest group ends 1ns before a whole multiple of the duration: [0,2h) truncated at 2h-1ns, a group for
+    \* the instant 2h-1ns, the truncated one deleted, [0, 2h-1ns) created in the gap, the 1ns group deleted and pruned
+    [] Script = "endMinus1ns" -> <<S("Write", 0), S("Truncate", 7), S("Write", 7), S("Delete", 1), S("Write", 0),
+                                   S("Delete", 2), S("Prune", 0)>>
+    \* newest group truncated, then the duration is altered
+    [] Script = "truncAlter" -> <<S("Write", 0), S("Truncate", 7), S("Alter", 12)>>
+    \* a pre-created group that is deleted again
+    [] Script = "preDeleted" -> <<S("Write", 0), S("Precreate", 9), S("Delete", 2)>>
+
+Dyn(X) == {x \in X : Len(hist) >= 0}     \* state-dependent (TLC caches constant-level RandomElement)
 Bag == <<"Write", "Write", "Write", "Precreate", "Precreate", "Precreate", "Precreate", "Truncate", "Alter",
-         "Delete", "Tick", "Tick", "Tick">>
-Pick(S) == IF Sim THEN {RandomElement(Dyn(S))} ELSE S
+         "Delete", "Tick", "Tick", "Tick", "Prune">>
+Pick(X) == IF Sim THEN {RandomElement(Dyn(X))} ELSE X
 
 \* the clock advances in small steps (the three next clock values), otherwise it runs past every group at once
 NextNows == LET later == {m \in NowTimes : m > now} IN
@@ -29,13 +44,26 @@ NextNows == LET later == {m \in NowTimes : m > now} IN
 HitAdvs == {a \in Advs : InWindow(gs, now, now + a)}
 PreAdvs == IF Sim /\ HitAdvs # {} /\ RandomElement(Dyn({0, 1, 2})) # 0 THEN HitAdvs ELSE Advs
 
-Act(k) ==
-  CASE k = "Write" -> \E t \in Pick(WTimes) : Write(t) /\ hist' = Append(hist, [a |-> k, x |-> t])
-    [] k = "Precreate" -> \E adv \in Pick(PreAdvs) : Precreate(adv) /\ hist' = Append(hist, [a |-> k, x |-> adv])
-    [] k = "Truncate" -> \E t \in Pick(TTimes) : Truncate(t) /\ hist' = Append(hist, [a |-> k, x |-> t])
-    [] k = "Alter" -> \E dd \in Pick(Durs \ {d}) : Alter(dd) /\ hist' = Append(hist, [a |-> k, x |-> dd])
-    [] k = "Delete" -> \E id \in Pick(1..(nid - 1)) : Delete(id) /\ hist' = Append(hist, [a |-> k, x |-> id])
-    [] k = "Tick" -> \E n \in Pick(NextNows) : Tick(n) /\ hist' = Append(hist, [a |-> k, x |-> n])
+ArgSet(k) ==
+  CASE k = "Write" -> WTimes
+    [] k = "Precreate" -> PreAdvs
+    [] k = "Truncate" -> TTimes
+    [] k = "Alter" -> Durs \ {d}
+    [] k = "Delete" -> 1..(nid - 1)
+    [] k = "Prune" -> {0}
+    [] k = "Tick" -> NextNows
+
+ActX(k, x) ==
+  /\ CASE k = "Write" -> Write(x)
+       [] k = "Precreate" -> Precreate(x)
+       [] k = "Truncate" -> Truncate(x)
+       [] k = "Alter" -> Alter(x)
+       [] k = "Delete" -> Delete(x)
+       [] k = "Prune" -> Prune
+       [] k = "Tick" -> Tick(x)
+  /\ hist' = Append(hist, S(k, x))
+  /\ obs' = Append(obs, [gs |-> gs', d |-> d', now |-> now', created |-> last'.created, cut |-> last'.cut,
+                         probes |-> {[t |-> t, r |-> Range(gs', t)] : t \in Probes}])
 
 EnabledKind(k) ==
   CASE k = "Alter" -> Durs \ {d} # {}
@@ -43,6 +71,7 @@ EnabledKind(k) ==
     [] k = "Tick" -> \E m \in NowTimes : m > now
     [] k = "Write" -> nid <= MaxG \/ \E t \in WTimes : ServeIdx(gs, t) # 0
     [] k = "Precreate" -> nid <= MaxG
+    [] k = "Prune" -> WithPrune /\ \E i \in 1..Len(gs) : gs[i].del
     [] OTHER -> TRUE
 Kinds == {Bag[i] : i \in 1..Len(Bag)}
 EBag == SelectSeq(Bag, EnabledKind)
@@ -50,14 +79,13 @@ EBag == SelectSeq(Bag, EnabledKind)
 GNext ==
   /\ Len(hist) < GenLen
   /\ nid <= MaxG + 1
-  /\ \E k \in (IF Sim THEN {EBag[RandomElement(Dyn(1..Len(EBag)))]} ELSE {kk \in Kinds : EnabledKind(kk)}) : Act(k)
+  /\ IF Len(hist) < Len(ScriptSeq)
+     THEN ActX(ScriptSeq[Len(hist) + 1].a, ScriptSeq[Len(hist) + 1].x)
+     ELSE \E k \in (IF Sim THEN {EBag[RandomElement(Dyn(1..Len(EBag)))]} ELSE {kk \in Kinds : EnabledKind(kk)}) :
+            \E x \in Pick(ArgSet(k)) : ActX(k, x)
 
-\* the record printed for step i needs the state after the step: kept in a parallel history
-VARIABLE obs
 GInit == Init /\ hist = <<>> /\ obs = <<>>
-GNextO == GNext /\ obs' = Append(obs, [gs |-> gs', d |-> d', now |-> now', created |-> last'.created, cut |-> last'.cut,
-                                       probes |-> {[t |-> t, r |-> Range(gs', t)] : t \in Probes}])
-GSpec == GInit /\ [][GNextO]_<<gvars, obs>>
+GSpec == GInit /\ [][GNext]_gvars
 
 Beh == [i \in 1..Len(hist) |-> [a |-> hist[i].a, x |-> hist[i].x, gs |-> obs[i].gs, d |-> obs[i].d, now |-> obs[i].now,
                                  cut |-> obs[i].cut, created |-> obs[i].created, probes |-> obs[i].probes]]
